@@ -340,6 +340,9 @@ func (n *WorkflowNode) checkAndAddMappedPath(paths []FieldPath) error {
 		if _, ok = v.(struct{}); ok {
 			return fmt.Errorf("entire output has already been mapped for node: %s", n.key)
 		}
+		if len(paths) == 0 {
+			return fmt.Errorf("entire input of node %s cannot be mapped, some of its fields have already been mapped", n.key)
+		}
 	} else {
 		if len(paths) == 0 {
 			n.mappedFieldPath[""] = struct{}{}
@@ -350,22 +353,44 @@ func (n *WorkflowNode) checkAndAddMappedPath(paths []FieldPath) error {
 	}
 
 	for _, targetPath := range paths {
-		m := n.mappedFieldPath[""].(map[string]any)
+		m, ok := n.mappedFieldPath[""].(map[string]any)
+		if !ok {
+			return fmt.Errorf("entire output has already been mapped for node: %s", n.key)
+		}
+
+		if len(targetPath) == 0 {
+			// mapping to the entire input: conflicts with any other mapped path
+			if len(m) > 0 {
+				return fmt.Errorf("entire input of node %s cannot be mapped, some of its fields have already been mapped", n.key)
+			}
+			n.mappedFieldPath[""] = struct{}{}
+			continue
+		}
+
 		var traversed FieldPath
 		for i, path := range targetPath {
 			traversed = append(traversed, path)
-			if v, ok := m[path]; ok {
-				if _, ok = v.(struct{}); ok {
-					return fmt.Errorf("two terminal field paths conflict for node %s: %v, %v", n.key, traversed, targetPath)
+			last := i == len(targetPath)-1
+
+			v, exist := m[path]
+			if !exist {
+				if last {
+					m[path] = struct{}{}
+				} else {
+					next := make(map[string]any)
+					m[path] = next
+					m = next
 				}
+				continue
 			}
 
-			if i < len(targetPath)-1 {
-				m[path] = make(map[string]any)
-				m = m[path].(map[string]any)
-			} else {
-				m[path] = struct{}{}
+			next, isIntermediate := v.(map[string]any)
+			if !isIntermediate || last {
+				// either a mapped path is a prefix of (or equal to) targetPath,
+				// or targetPath is a prefix of an already mapped path
+				return fmt.Errorf("two terminal field paths conflict for node %s: %v, %v", n.key, traversed, targetPath)
 			}
+			m = next
 		}
 	}
 
